@@ -244,11 +244,64 @@ pub fn run(ctx: &Ctx) -> Report {
     });
     st = st.merge(st3);
 
+    // (4) histories on one thread: every sequence of 1..3 derivations over secrets that are prefixes /
+    //     zero-extensions of one another x two dates: each derivation judged as if it were alone (nothing
+    //     remembered from an earlier derivation may stand in for this one)
+    let hist_secrets: Vec<String> = vec![
+        String::new(),
+        "a".into(),
+        "aa".into(),
+        "a".repeat(20),
+        "a".repeat(39),
+        "a".repeat(40),
+        secret(20, 1),
+        secret(40, 1),
+        "sss".into(),
+        "sss\0".into(),
+        "sss\0\0".into(),
+        "ssS".into(),
+    ];
+    let hist_dates = [(2015, 8, 30), (2015, 8, 31)];
+    let kh = (hist_secrets.len() * hist_dates.len()) as u64;
+    let depth = if thorough { 4 } else { 3 };
+    let n4 = crate::enumr::seq_count(kh, depth);
+    thread_local! {
+        // the derivations this thread made most recently (what a replay has to repeat to reach the same state)
+        static RECENT: std::cell::RefCell<Vec<(String, (i32, u32, u32))>> = const { std::cell::RefCell::new(Vec::new()) };
+    }
+    let st4 = par_sweep(n4, |i, st| {
+        let seq = crate::enumr::seq_decode(i, kh, depth);
+        for (pos, sym) in seq.iter().enumerate() {
+            let s = &hist_secrets[(*sym as usize) / hist_dates.len()];
+            let d = hist_dates[(*sym as usize) % hist_dates.len()];
+            let before = st.violations.len();
+            RECENT.with(|r| {
+                let mut r = r.borrow_mut();
+                r.push((s.clone(), d));
+                if r.len() > 8 {
+                    r.remove(0);
+                }
+            });
+            check_chain(n1 + n2 + n3 + i * 4 + pos as u64, s, d, "us-east-1", "service", st);
+            if st.violations.len() > before {
+                if let Some(v) = st.violations.last_mut() {
+                    v.what = format!("derivation-depends-on-earlier-derivations(step {} of {:?})", pos, seq);
+                    let h: Vec<Value> = RECENT.with(|r| r.borrow().iter().map(|(s, d)| json!({"secret": s, "date": [d.0, d.1, d.2]})).collect());
+                    v.case = json!({"history": h});
+                }
+                break;
+            }
+        }
+        st.nontrivial(&("history", &seq));
+        st.outcome("chain:history");
+    });
+    st = st.merge(st4);
+
     Report {
         stats: st,
         rule: format!(
-            "(1) capacities {{0,1,3,4,5,44,45,64,128}} x every secret length 0..={} x 7 fills (ASCII, mixed, multi-byte UTF-8, trailing NUL, trailing newline, leading/trailing blank and tab, trailing no-break space): accepted iff capacity >= 4 and length <= capacity-4, never a panic; (2) every accepted length 0..=40 x 7 fills x {} special dates (years 1/999/1000/9999, every 29 Feb 1896-2104) x 36 (region, service) pairs over {{empty, us-east-1, non-ASCII, 1000 bytes, with '/', with NUL}}: read-back of the secret, the four chain keys and all six shortcut derivations compared with the reference HMAC chain; (3) every calendar date {}-01-01..{}-12-31. states = distinct reference signing keys; non-trivial = distinct inputs",
-            max_len, nd, y0, y1
+            "(1) capacities {{0,1,3,4,5,44,45,64,128}} x every secret length 0..={} x 7 fills (ASCII, mixed, multi-byte UTF-8, trailing NUL, trailing newline, leading/trailing blank and tab, trailing no-break space): accepted iff capacity >= 4 and length <= capacity-4, never a panic; (2) every accepted length 0..=40 x 7 fills x {} special dates (years 1/999/1000/9999, every 29 Feb 1896-2104) x 36 (region, service) pairs over {{empty, us-east-1, non-ASCII, 1000 bytes, with '/', with NUL}}: read-back of the secret, the four chain keys and all six shortcut derivations compared with the reference HMAC chain; (3) every calendar date {}-01-01..{}-12-31; (4) every sequence of 1..{} derivations on one thread over 12 secrets that are prefixes / NUL-extensions / case variants of one another x 2 dates, each judged alone. states = distinct reference signing keys; non-trivial = distinct inputs",
+            max_len, nd, y0, y1, depth
         ),
         bounds: json!({"max_secret_len": max_len, "dates_from_year": y0, "dates_to_year": y1}),
         exhaustive: true,
@@ -259,7 +312,19 @@ pub fn run(ctx: &Ctx) -> Report {
 
 pub fn replay(case: &Value) -> i32 {
     let mut st = Stats::new();
-    if let Some(m) = case["capacity"].as_u64() {
+    if let Some(h) = case["history"].as_array() {
+        for step in h {
+            let d = &step["date"];
+            check_chain(
+                0,
+                step["secret"].as_str().unwrap_or(""),
+                (d[0].as_i64().unwrap_or(2015) as i32, d[1].as_u64().unwrap_or(1) as u32, d[2].as_u64().unwrap_or(1) as u32),
+                "us-east-1",
+                "service",
+                &mut st,
+            );
+        }
+    } else if let Some(m) = case["capacity"].as_u64() {
         check_capacity(0, m as usize, case["secret"].as_str().unwrap_or(""), &mut st);
     } else {
         let d = &case["date"];
